@@ -272,3 +272,13 @@ func VerifSend(c FlowControlCache, req *proxyv1alpha1.RateLimitAcquireRequest, a
 
 // VerifHasRemote: does the cache hold a remote wrapper?
 func VerifHasRemote(c FlowControlCache) bool { return c.(*flowControlCache).remote != nil }
+
+// VerifLoopAlive: would the reconcile loop still run a round? It has been started and not stopped (cancel != nil) and
+// the context it was derived from is alive. (No timing: the loop's rounds are wall-clock driven, the harness performs a
+// round — the two halves of reconcile() — itself, but only while the real loop is alive.)
+func VerifLoopAlive(rc Reconcile) bool {
+	r := rc.(*reconcile)
+	r.lock.Lock()
+	defer r.lock.Unlock()
+	return r.cancel != nil && r.ctx.Err() == nil
+}
